@@ -236,7 +236,7 @@ def ref_scan(raw, P, SL, dialect):
         while j < n_raw and raw[j] < 0x80:
             j += 1
             if j - pos > P:
-                return dict(exprs=exprs, fault="prefix", at=j - 1, end=j)
+                return dict(open=len(stack), tail=0, exprs=exprs, fault="prefix", at=j - 1, end=j)
         if j == n_raw:
             break
         digits = raw[pos:j]
@@ -245,10 +245,10 @@ def ref_scan(raw, P, SL, dialect):
         for i, d in enumerate(digits):
             n |= d << (7 * i)
         canonical = len(digits) >= 1 and (len(digits) == 1 or digits[-1] != 0)
-        nonc = dict(exprs=exprs, fault="noncanonical", at=pos, end=pos)
+        nonc = dict(open=len(stack), tail=0, exprs=exprs, fault="noncanonical", at=pos, end=pos)
         if t == LIST:
             if n > SL:
-                return dict(exprs=exprs, fault="listlen", at=j, end=j + 1)
+                return dict(open=len(stack), tail=0, exprs=exprs, fault="listlen", at=j, end=j + 1)
             if not canonical:
                 return nonc
             pos = j + 1
@@ -258,7 +258,7 @@ def ref_scan(raw, P, SL, dialect):
                 stack.append((n, []))
         elif t == STRING:
             if n > SL:
-                return dict(exprs=exprs, fault="strlen", at=j, end=j + 1)
+                return dict(open=len(stack), tail=0, exprs=exprs, fault="strlen", at=j, end=j + 1)
             if not canonical:
                 return nonc
             if n_raw - (j + 1) < n:
@@ -282,18 +282,18 @@ def ref_scan(raw, P, SL, dialect):
             pos = j + 1
         elif t == VOCAB:
             if dialect != "pb" or n not in VOCAB_BY_ID:
-                return dict(exprs=exprs, fault="vocab", at=j, end=j + 1)
+                return dict(open=len(stack), tail=0, exprs=exprs, fault="vocab", at=j, end=j + 1)
             if not canonical:
                 return nonc
             emit(VOCAB_BY_ID[n])
             pos = j + 1
         else:
-            return dict(exprs=exprs, fault="type", at=j, end=j + 1)
-    return dict(exprs=exprs, fault=None, at=n_raw, end=n_raw)
+            return dict(open=len(stack), tail=0, exprs=exprs, fault="type", at=j, end=j + 1)
+    return dict(open=len(stack), tail=n_raw - pos, exprs=exprs, fault=None, at=n_raw, end=n_raw)
 
 
 def assemble(pieces, P, SL, dialect):
-    """pieces -> bytes.  {"v": value} a valid element; {"vm": [value, [[index, byte]..]]}
+    """pieces -> bytes.  {"v": value} a valid element; {"cut": [value, k]} its first k (mod length) bytes; {"vm": [value, [[index, byte]..]]}
     a valid element with bytes substituted; {"raw": bytes}; {"hdr": [n, type]} prefix n
     + type byte; {"lhdr": [delta, type]} the same with n = SL + delta;
     {"digits": [delta, digit, type|None]} P + delta copies of a prefix digit (+ type)."""
@@ -307,6 +307,10 @@ def assemble(pieces, P, SL, dialect):
             for i, byte in subs:
                 b[i % len(b)] = byte
             out += b
+        elif "cut" in p:
+            v, k = p["cut"]
+            b = ref_encode(build(v, P, SL), dialect, bytearray())
+            out += b[:k % len(b)]
         elif "raw" in p:
             out += p["raw"]
         elif "hdr" in p:
@@ -412,6 +416,8 @@ def _special_float(x):
 
 def run_case(ctx, case):
     from twisted.spread import banana
+    if case["kind"] == "module":
+        return _run_module(ctx, case, banana)
     P = case["limit"]
     dialect = case["dialect"]
     sl = case.get("size_limit")
@@ -546,6 +552,103 @@ def _whole_ok(ctx, case, banana, dialect, P, SL, stream, expected):
 def _short(o):
     s = repr(o)
     return s if len(s) < 500 else s[:250] + " ... " + s[-200:]
+
+
+def _run_module(ctx, case, banana):
+    """The module level banana.encode / banana.decode (one shared decoder).
+
+    ops: ["rt", value]: decode(encode(value)) must give the value back whatever
+    earlier decode() calls were given; ["raw", pieces]: decode() of an
+    arbitrary (truncated / trailing / refused) stream: its own result is
+    asserted only where the reference scanner is definite, its purpose is to
+    be the history of the following round trips."""
+    P, SL, dialect = 64, REAL_SIZE_LIMIT, "none"
+    shared = banana._i
+    shared.buffer = b""
+    del shared.listStack[:]
+    state = dict(left_open=False, left_bytes=False)   # did an earlier decode() end with an open list / inside an item?
+    rt_after_bytes = rt_after_open = 0
+
+    def blame(kind):
+        if state["left_open"]:
+            return "module-decode-leaks-open-list"
+        if state["left_bytes"]:
+            return "module-decode-leaks-buffered-bytes"
+        return "module-" + kind
+    try:
+        for idx, op in enumerate(case["ops"]):
+            if op[0] == "raw":
+                raw = assemble(op[1], P, SL, dialect)
+                ref = ref_scan(raw, P, SL, dialect)
+                data = raw[:ref["end"]]
+                if not data:
+                    continue
+                got = None
+                try:
+                    got = [banana.decode(data)]
+                    outcome = "value"
+                except banana.BananaError:
+                    outcome = "BananaError"
+                except IndexError:
+                    outcome = "IndexError"        # no complete expression in the input
+                except (NotImplementedError, KeyError):
+                    outcome = "invalid"
+                fault = ref["fault"]
+                if fault in ("prefix", "listlen", "strlen"):
+                    if outcome != "BananaError":
+                        ctx.violation(blame(f"decode-accepted-oversized-{fault}"), case,
+                                      f"op {idx}: decode({data[:80].hex()}) -> {outcome}")
+                elif fault in (None, "noncanonical"):
+                    if ref["exprs"]:
+                        d = "raised" if outcome != "value" else first_diff(got[0], ref["exprs"][0])
+                        if d:
+                            ctx.violation(blame(f"decode-first-expression-{d}"), case,
+                                          f"op {idx}: decode({data[:80].hex()}) -> {outcome} "
+                                          f"{_short(got) if outcome == 'value' else ''}, reference {_short(ref['exprs'][0])}")
+                    elif outcome == "value":
+                        ctx.violation(blame("decode-invented-expression"), case,
+                                      f"op {idx}: decode({data[:80].hex()}) returned {_short(got)} but the input holds no complete expression")
+                ctx.count(f"module: raw decode -> {outcome}")
+                if ref["open"] > 0:
+                    state["left_open"] = True
+                elif ref["tail"] > 0 or (fault is not None and fault != "noncanonical"):
+                    state["left_bytes"] = True
+            else:
+                obj = build(op[1], P, SL)
+                why = over_limit(obj, P, SL, dialect)
+                try:
+                    enc = banana.encode(obj)
+                except banana.BananaError as e:
+                    if why is None:
+                        ctx.violation("module-encode-refused-in-limit", case, f"op {idx}: {e}")
+                    continue
+                if why is not None:
+                    ctx.violation(f"module-encode-accepted-over-limit-{why}", case, f"op {idx}")
+                try:
+                    got = banana.decode(enc)
+                except (banana.BananaError, IndexError, NotImplementedError, KeyError) as e:
+                    ctx.violation(blame("roundtrip-raised"), case,
+                                  f"op {idx}: decode(encode({_short(obj)})) raised {type(e).__name__}({e}) after ops {_short(case['ops'][:idx])}")
+                d = first_diff(got, normalize(obj))
+                if d:
+                    ctx.violation(blame(f"roundtrip-mismatch-{d}"), case,
+                                  f"op {idx}: decode(encode({_short(obj)})) gave {_short(got)} after ops {_short(case['ops'][:idx])}")
+                if state["left_open"]:
+                    rt_after_open += 1
+                elif state["left_bytes"]:
+                    rt_after_bytes += 1
+    finally:
+        shared.buffer = b""
+        del shared.listStack[:]
+    if rt_after_bytes:
+        ctx.count("module: round trip after a decode() that ended inside an item or was refused (no open list)")
+    if rt_after_open:
+        ctx.count("module: round trip after a decode() that left a list open")
+    if rt_after_bytes or rt_after_open:
+        ctx.nontrivial(dumps(case))
+        ctx.count("nontrivial")
+        if len(dumps(case)) < 500:
+            ctx.sample(case)
 
 
 def _run_stream(ctx, case, banana, P, SL, dialect):
@@ -766,6 +869,28 @@ def _stream_pieces(S):
 _PIECES = {small: _stream_pieces(_S[(small, False)]) for small in (False, True)}
 
 
+def _module_cases():
+    S = _S[(False, False)]
+    So = _S[(False, True)]
+    # mostly small values: the history matters here, deep structures are the rt kind's business
+    small = st.lists(st.one_of(S["leaf"], st.lists(S["leaf"], max_size=2)), max_size=3)
+    value = st.one_of(small, small, small, S["leaf"], S["top"], st.lists(So["leaf"], max_size=2))
+    cut = st.tuples(value, st.integers(0, 60)).map(lambda t: {"cut": list(t)})
+    scalar_cut = st.tuples(st.one_of(st.binary(min_size=2, max_size=9), st.integers(0, 1 << 40),
+                                     st.integers(0, (1 << 64) - 1).map(lambda b: {"f": b})),
+                           st.integers(1, 9)).map(lambda t: {"cut": list(t)})
+    valid = value.map(lambda v: {"v": v})
+    history = st.one_of(
+        # whole expressions followed by the beginning of the next item
+        st.tuples(st.lists(valid, max_size=2), st.one_of(scalar_cut, scalar_cut, cut)).map(lambda t: t[0] + [t[1]]),
+        _PIECES[False],
+    ).map(lambda p: ["raw", p])
+    rt = value.map(lambda v: ["rt", v])
+    return st.tuples(st.lists(st.one_of(history, rt), max_size=1), history, rt,
+                     st.lists(st.one_of(history, rt, rt), max_size=2)).map(
+        lambda t: dict(kind="module", ops=t[0] + [t[1], t[2]] + t[3]))
+
+
 @st.composite
 def stream_cases(draw):
     P = draw(LIMITS)
@@ -831,6 +956,8 @@ def _hyp_shard(sub, i):
     hyp_run(sub, rt_cases(), run_case, n, label=f"rt-shard{i}")
     if not sub.has_violation():
         hyp_run(sub, stream_cases(), run_case, n, label=f"stream-shard{i}")
+    if not sub.has_violation():
+        hyp_run(sub, _module_cases(), run_case, n, label=f"module-shard{i}")
 
 
 def run(ctx):
@@ -840,7 +967,10 @@ def run(ctx):
     if ctx.thorough:
         ctx.shards(_hyp_shard, list(range(16)))
         return
-    hyp_run(ctx, rt_cases(), run_case, 1500, label="rt")
+    hyp_run(ctx, rt_cases(), run_case, 1200, label="rt")
     if ctx.has_violation():
         return
-    hyp_run(ctx, stream_cases(), run_case, 1500, label="stream")
+    hyp_run(ctx, stream_cases(), run_case, 1200, label="stream")
+    if ctx.has_violation():
+        return
+    hyp_run(ctx, _module_cases(), run_case, 400, label="module")
